@@ -52,6 +52,9 @@ func trunc(b []byte, n int) string {
 func Files(tables []*sqlref.Table) map[string][]byte {
 	m := map[string][]byte{}
 	for _, t := range tables {
+		if t.FromSQL != "" {
+			continue // virtual: its content comes from other files
+		}
 		m[t.File] = t.FileBytes()
 	}
 	return m
@@ -61,6 +64,9 @@ func Files(tables []*sqlref.Table) map[string][]byte {
 func FilesInline(tables []*sqlref.Table) map[string]string {
 	m := map[string]string{}
 	for _, t := range tables {
+		if t.FromSQL != "" {
+			continue
+		}
 		m[t.File] = string(t.FileBytes())
 	}
 	return m
